@@ -1,6 +1,6 @@
-/* C08 harness: the real firmware layer1/tdma_sched.c (#included, so statics are reachable), harness-owned l1s.
+/* C08 harness: the real firmware layer1/tdma_sched.c and layer1/sched_gsmtime.c (#included, so statics are reachable), harness-owned l1s.
  *
- *   c08 const            -> dump of the constants / field widths as compiled (-> Gen/FwSchedConst.v)
+ *   c08 const            -> dump of the constants / field widths as compiled (-> Gen/FwSchedConst.v, Gen/FwGsmtimeConst.v)
  *   c08 [<] lines        -> one history per input line (flat ints, the same encoding Model/TdmaSched.v w_c08_run decodes):
  *        cur  { 1 off cb p1 p2 p3 prio | 2 off p3 n (cb p1 p2 p3 prio){n} | 3 | 4 | 5 }*
  *        1 = tdma_schedule, 2 = tdma_schedule_set (array of n items, markers included), 3 = advance, 4 = execute, 5 = reset
@@ -14,7 +14,13 @@
  *               15 SPAWN: logs itself, then calls the real tdma_schedule(p2, cbtab[2 + p1 % 8], p1, p2, p3, (int16_t)(p1 - 128)) from inside
  *                  tdma_sched_execute(), logs (-2 p2 child_cb rc) and returns 0 whatever rc was;
  *               16 RSPAWN: logs itself, calls tdma_sched_reset(), logs (-3 items_stored 0 0), then does what 15 does (prim_fbsb.c pattern).
- *   c08 v1 [<] lines     -> the same, callback ids 15 / 16 are rejected as malformed (what Model w_c08_run decodes; w_c08_runsp takes 0..16). */
+ *   c08 v1 [<] lines     -> the same, callback ids 15 / 16 are rejected as malformed (what Model w_c08_run decodes; w_c08_runsp takes 0..16).
+ *   c08 gsm [<] lines    -> additionally (Model/SchedGsmtime.v w_c08_gsm): 6 fn p3 n (cb p1 p2 p3 prio){n} = sched_gsmtime(array, fn, p3) -> return value
+ *        (an array without SCHED_END_SET is rejected as malformed: the real code would read past it when the event fires);
+ *        7 fn = sched_gsmtime_execute(fn) -> return value; 8 = sched_gsmtime_reset() -> number of nodes on inactive_evts.
+ *        Before every history the two list heads and the event pool are put back to their static initial state and the REAL
+ *        sched_gsmtime_init() is called once.  Final state: the TDMA part, then
+ *        8888 nact (slot fn p3 n (cb p1 p2 p3 prio){n}){nact} ninact slot{ninact}  = both lists walked from head->next on. */
 #include <stdio.h>
 #include <stdlib.h>
 #include <string.h>
@@ -32,6 +38,7 @@ static int c08_quiet_putchar(int c) { return c; }
 #undef putchar
 #define putchar c08_quiet_putchar
 #include C08_SOURCE
+#include C08G_SOURCE
 #undef printf
 #undef puts
 #undef putchar
@@ -99,6 +106,67 @@ static void dump_consts(void)
 	printf("PRIO_BITS %d\n", (int)(8 * sizeof(it.prio)));
 	printf("PRIO_SIGNED %d\n", it.prio < 0 ? 1 : 0);
 	printf("P3_SIGNED %d\n", it.p3 < 0 ? 1 : 0);
+	{
+		struct sched_gsmtime_event ev;
+		memset(&ev, 0xff, sizeof(ev));
+		printf("GSMTIME_NEVENTS %d\n", (int)ARRAY_SIZE(sched_gsmtime_events));
+		printf("SCHEDULE_AHEAD %d\n", (int)SCHEDULE_AHEAD);
+		printf("SCHEDULE_LATENCY %d\n", (int)SCHEDULE_LATENCY);
+		printf("EBUSY %d\n", (int)EBUSY);
+		printf("GSM_MAX_FN %ld\n", (long)GSM_MAX_FN);
+		printf("GSMTIME_FN_BITS %d\n", (int)(8 * sizeof(ev.fn)));
+		printf("GSMTIME_FN_SIGNED %d\n", ev.fn < 0 ? 1 : 0);
+		printf("GSMTIME_P3_BITS %d\n", (int)(8 * sizeof(ev.p3)));
+	}
+}
+
+static int gsm_mode;
+#define MAXARENA 4096
+static struct tdma_sched_item *arena[MAXARENA];
+static int arena_n[MAXARENA];
+static int narena;
+
+static void gsm_fresh(void)
+{
+	int k;
+	for (k = 0; k < narena; k++) free(arena[k]);
+	narena = 0;
+	/* static initial state of sched_gsmtime.c, then its real init */
+	INIT_LLIST_HEAD(&active_evts);
+	INIT_LLIST_HEAD(&inactive_evts);
+	memset(sched_gsmtime_events, 0, sizeof(sched_gsmtime_events));
+	sched_gsmtime_init();
+}
+
+static void gsm_dump(void)
+{
+	struct llist_head *lh;
+	int n = 0, guard = 0, k, j;
+	llist_for_each(lh, &active_evts) if (++guard > 64) break;
+	printf("8888 %d ", guard);
+	guard = 0;
+	llist_for_each(lh, &active_evts) {
+		struct sched_gsmtime_event *e = llist_entry(lh, struct sched_gsmtime_event, list);
+		if (++guard > 64) break;
+		printf("%d %lu %u ", (int)(e - sched_gsmtime_events), (unsigned long)e->fn, e->p3);
+		for (k = 0; k < narena; k++) if (arena[k] == e->si) break;
+		if (k == narena) { printf("-1 "); continue; }
+		printf("%d ", arena_n[k]);
+		for (j = 0; j < arena_n[k]; j++) {
+			const struct tdma_sched_item *t = &e->si[j];
+			printf("%d %u %u %u %d ", cb_id(t->cb), t->p1, t->p2, t->p3, t->prio);
+		}
+	}
+	guard = 0;
+	llist_for_each(lh, &inactive_evts) if (++guard > 64) break;
+	n = guard;
+	printf("%d ", n);
+	guard = 0;
+	llist_for_each(lh, &inactive_evts) {
+		struct sched_gsmtime_event *e = llist_entry(lh, struct sched_gsmtime_event, list);
+		if (++guard > 64) break;
+		printf("%d ", (int)(e - sched_gsmtime_events));
+	}
 }
 
 #define MAXTOK 20000
@@ -123,11 +191,58 @@ static void run_line(int n)
 			for (k = 0; k < cnt; k++) if (tok[i + 4 + 5 * k] < 0 || tok[i + 4 + 5 * k] >= ncbk) { printf("-999\n"); return; }
 			i += 4 + 5 * cnt;
 		} else if (c == 3 || c == 4 || c == 5) i++;
+		else if (gsm_mode && c == 6) {
+			long cnt;
+			int term = 0;
+			if (i + 4 > n) { printf("-999\n"); return; }
+			cnt = tok[i + 3];
+			if (cnt < 0 || cnt > 64 || i + 4 + 5 * cnt > n) { printf("-999\n"); return; }
+			for (k = 0; k < cnt; k++) {
+				if (tok[i + 4 + 5 * k] < 0 || tok[i + 4 + 5 * k] >= ncbk) { printf("-999\n"); return; }
+				if (tok[i + 4 + 5 * k] == 1) term = 1;
+			}
+			if (!term) { printf("-999\n"); return; }
+			i += 4 + 5 * cnt;
+		} else if (gsm_mode && c == 7) { if (i + 2 > n) { printf("-999\n"); return; } i += 2; }
+		else if (gsm_mode && c == 8) i++;
 		else { printf("-999\n"); return; }
 	}
 	l1s.tdma_sched.cur_bucket = tok[0];
+	if (gsm_mode) gsm_fresh();
 	for (i = 1; i < n; ) {
 		long c = tok[i];
+		if (c == 6) {
+			long cnt = tok[i + 3];
+			struct tdma_sched_item *a;
+			int rc;
+			if (narena >= MAXARENA) { printf("-999\n"); return; }
+			a = malloc(sizeof(*a) * (cnt ? cnt : 1));       /* exact size: ASan sees any read past the array */
+			for (k = 0; k < cnt; k++) {
+				const long *t = &tok[i + 4 + 5 * k];
+				memset(&a[k], 0, sizeof(a[k]));
+				a[k].cb = cbtab[t[0]]; a[k].p1 = t[1]; a[k].p2 = t[2]; a[k].p3 = t[3]; a[k].prio = t[4];
+			}
+			arena[narena] = a; arena_n[narena] = cnt; narena++;
+			rc = sched_gsmtime(a, (uint32_t)tok[i + 1], (uint16_t)tok[i + 2]);
+			printf("%d ", rc);
+			i += 4 + 5 * cnt;
+			continue;
+		}
+		if (c == 7) {
+			int rc = sched_gsmtime_execute((uint32_t)tok[i + 1]);
+			printf("%d ", rc);
+			i += 2;
+			continue;
+		}
+		if (c == 8) {
+			struct llist_head *lh;
+			int cnt = 0;
+			sched_gsmtime_reset();
+			llist_for_each(lh, &inactive_evts) if (++cnt > 64) break;
+			printf("%d ", cnt);
+			i++;
+			continue;
+		}
 		if (c == 1) {
 			int rc = tdma_schedule((uint8_t)tok[i + 1], cbtab[tok[i + 2]], (uint8_t)tok[i + 3], (uint8_t)tok[i + 4],
 					       (uint16_t)tok[i + 5], (int16_t)tok[i + 6]);
@@ -194,6 +309,7 @@ static void run_line(int n)
 		for (k = 0; k < bk->num_items; k++)
 			printf("%d %u %u %u %d ", cb_id(bk->item[k].cb), bk->item[k].p1, bk->item[k].p2, bk->item[k].p3, bk->item[k].prio);
 	}
+	if (gsm_mode) gsm_dump();
 	printf("\n");
 }
 
@@ -201,6 +317,7 @@ int main(int argc, char **argv)
 {
 	if (argc > 1 && !strcmp(argv[1], "const")) { dump_consts(); return 0; }
 	if (argc > 1 && !strcmp(argv[1], "v1")) ncbk = 15;
+	if (argc > 1 && !strcmp(argv[1], "gsm")) gsm_mode = 1;
 	setvbuf(stdout, NULL, _IOFBF, 1 << 16);
 	while (fgets(line, sizeof(line), stdin)) {
 		int n = 0;
